@@ -10,6 +10,7 @@ import tempfile
 from fractions import Fraction
 
 from ..core import frac
+from . import _c08ext as _ext
 
 LEVEL = "proof"
 RULE = ("random region tables (1..4 dozen rows; chromosome names 1..22/X/Y/M/MT, 3-digit numbers, alt/random/Un/hap "
@@ -33,13 +34,23 @@ RULE = ("random region tables (1..4 dozen rows; chromosome names 1..22/X/Y/M/MT,
         "table object is first written in 1..3 other formats; (d) 1..4 samples sent through export seg -> import-seg -> "
         "read -> export seg, 12 % through the cnvkit.py argument parser [seg_roundtrip]. Extra numeric columns hold "
         "arbitrary finite floats (random bit patterns, dyadics, 6-digit rounding ties, 1e+-300, integral). "
+        "Round 4: (e) columns of 48 finite doubles biased to the decision points of %.6g (decade boundaries 10^k and "
+        "999999.5*10^k with neighbours, binary-exact ties of the 6th digit, the fixed/scientific switch at exponents -5/-4 "
+        "and 5/6, short decimals, integral values around 10^6, 1e+-300, random bit patterns) written by the real "
+        "tabio.write: every field compared character for character with the Lean spelling model fmt6g, and read back by "
+        "the Lean number parser [fmt_spell]; (f) tab tables with float (NaN outside log2, whole columns of integral "
+        "floats), integer and text columns through write/read/write/read/write: file1, the typed table and file2 against "
+        "the Lean model reading ITS OWN spelled lines, byte for byte [tab_spell]; (g) chromosome labels (ASCII; any "
+        "prefix case, alt/random/Un, leading zeros, empty) -> sort key of the real sorter_chrom vs the hand model vs the "
+        "function regenerated from the source text [src_key]; regions -> to_label -> from_label likewise [src_label]. "
         "non-trivial = table has >= 2 rows on >= 2 chromosomes or an extra column; distinct by hash of the case")
 EXHAUSTIVE = {"quick": False, "thorough": False}
 ASSUMPTIONS = [
     "field level: a file is compared/modelled as lines split on newline and tab (pandas CSV tokenising and quoting trusted)",
     "float cells are exact rationals; '%.6g' is modelled by its value (nearest 6-significant-digit decimal, ties to even "
-    "on the exact binary value); the spelling of that decimal and the decimal->double parse are trusted and validated by "
-    "the byte comparison of the second/third write",
+    "on the exact binary value) AND by its characters (fmt6g: fixed for decimal exponents -4..5, else d.ddddde+-XX, zeros "
+    "stripped; proved to be parsed back to the rounded value and to be a fixed point); the decimal->double parse of the "
+    "real reader is trusted (pandas' fast parser may be one ulp off the nearest double: compared at 1e-9 relative)",
     "tables handed to the writers have their columns in class order (as every table cnvkit reads or builds has)",
     "chromosome names (and gene labels outside tab files: interval lists, SEG) are not pandas NA spellings (NA, nan, NULL, "
     "None, ...), not purely numeric with leading zeros, and contain no tab/quote/@/# characters; floats are finite, "
@@ -49,7 +60,8 @@ ASSUMPTIONS = [
     "SEG renaming options are tied by handing the Lean reader the same file with the names already replaced",
 ]
 TRUSTED_EXTRA = ["pandas read_csv / to_csv tokenising, dtype inference and NA spellings", "Python re for the sniff patterns and re_label",
-                 "Python/pandas decimal printing of ints and '%.6g'", "pandas stable multi-key mergesort on (tuple key, start, end)"]
+                 "Python/pandas decimal printing of ints; C/Python '%.6g' (compared byte for byte with the Lean model on every run)",
+                 "harness/extractors/exprs_chromsort.py: reading of the Python str subset (Model/PyStr.lean primitives)", "pandas stable multi-key mergesort on (tuple key, start, end)"]
 
 COORD_MAX = 3 * 10 ** 8
 REQ = ("chromosome", "start", "end")
@@ -796,6 +808,7 @@ def corpus():
     rows = [["chr1", 10 * k, 10 * k + 5, [["s", "g"], _cell_f(v)]] for k, v in enumerate(vals)]
     cases.append({"op": "fmt_roundtrip", "tag": "corpus-numbers",
                   "in": {"wfmt": "tab", "rfmt": "tab", "cna": True, "t0": {"names": ["gene", "log2"], "rows": rows}}})
+    cases.extend(_ext.corpus(_table))
     return cases
 
 
@@ -818,6 +831,7 @@ def gen_cases(rng, tier):
     if tier != "search":
         for _ in range(20 * n):
             cases.append(_malformed(rng))
+    cases.extend(_ext.gen_cases(rng, tier, _table))   # round 4: after everything else, so earlier case streams are unchanged
     return cases
 
 
@@ -976,6 +990,8 @@ def run_impl(case):
     from skgenome import tabio
 
     op, i = case["op"], case["in"]
+    if op in _ext.EXT_OPS:
+        return _ext.run_impl(case, {"read_lines": _read_lines, "array": _array, "writer": _writer, "reader": _reader, "canon": _canon})
     d = tempfile.mkdtemp(dir="/var/tmp", prefix="c08-")
     try:
         if op == "fmt_read":
@@ -1084,6 +1100,8 @@ def _is_err(impl):
 
 def to_line(case, impl):
     op, i = case["op"], case["in"]
+    if op in _ext.EXT_OPS:
+        return _ext.to_line(case, impl, _is_err)
     if op == "fmt_read":
         line = {"op": op, "in": {k: v for k, v in i.items() if k in ("fmt", "lines", "cna", "sel", "truth", "carried") and v is not None}}
         if i.get("written_by"):
@@ -1191,6 +1209,8 @@ def _outside(msg):
 
 def judge(case, impl, resp):
     op, tag = case["op"], case.get("tag", "")
+    if op in _ext.EXT_OPS:
+        return _ext.judge(case, impl, resp, _is_err)
     if "error" in resp and "out" not in resp:
         return [], ["driver error: " + resp["error"]], None
     out = resp.get("out")
@@ -1278,6 +1298,8 @@ def judge(case, impl, resp):
 
 def nontrivial(case, impl, resp):
     i = case["in"]
+    if case["op"] in _ext.EXT_OPS:
+        return _ext.nontrivial(case, impl, resp)
     if case["op"] == "fmt_read":
         rows = (i.get("truth") or {}).get("rows") or []
         return len(rows) >= 2 and len({r[0] for r in rows}) >= 2
